@@ -73,13 +73,14 @@ func Parse(v string) (*Version, error) {
 		}
 		ver.Major = ns[0]
 	case 2:
-		if (ns[0] + ns[1]) == 0 {
+		// not the sum: it is computed in uint16 and wraps to 0 for e.g. 65535.1
+		if ns[0] == 0 && ns[1] == 0 {
 			return nil, fmt.Errorf("invalid version %q", v)
 		}
 		ver.Major = ns[0]
 		ver.Minor = ns[1]
 	case 3:
-		if (ns[0] + ns[1] + ns[2]) == 0 {
+		if ns[0] == 0 && ns[1] == 0 && ns[2] == 0 {
 			return nil, fmt.Errorf("invalid version %q", v)
 		}
 		ver.Major = ns[0]
